@@ -137,6 +137,10 @@ struct C04 {
     CHECK(c, d.empty(), "refusal-changes-nothing", "%s (%s) was refused but changed storage: %s", why, f.str().c_str(), d.c_str());
   }
 
+  // the abort that answers a continuation request of an open transfer names the object of that transfer
+  void abort_names_open(const Frame &f, const std::vector<Frame> &r, const TObj *o, const char *why) {
+    if (o && r.size() == 1 && r[0].d[0] == 0x80) CHECK(c, r[0].u16(1) == o->idx && r[0].d[3] == o->sub, "response-multiplexer", "%s (%s): the abort names %04X:%02X, the open transfer concerns %04X:%02X", why, f.str().c_str(), r[0].u16(1), r[0].d[3], o->idx, o->sub);
+  }
   void judge(int n, const Frame &f, const std::vector<Frame> &r, const std::vector<uint8_t> &before, const std::vector<uint8_t> &after) {
     Srv &x = m[n];
     uint8_t cmd = f.d[0];
@@ -192,11 +196,11 @@ struct C04 {
       }
       if ((cmd & 0xE3) == 0xA2 && x.st == BLKUP) {
         uint32_t k = f.d[1], nbs = f.d[2];
-        if (k > x.sent) { expect_abort(f, r, {}, before, after, "acknowledge beyond the segments sent", false); x.st = IDLE; return; }
+        if (k > x.sent) { expect_abort(f, r, {}, before, after, "acknowledge beyond the segments sent", false); abort_names_open(f, r, x.obj, "acknowledge beyond the segments sent"); x.st = IDLE; return; }
         bool all = x.acked + k == x.total;
         if ((nbs < 1 || nbs > 127)) {
           if (all && r.size() == 1 && (r[0].d[0] & 0xE3) == 0xC1) { x.st = BLKUPEND; return; }
-          expect_abort(f, r, {}, before, after, "acknowledge with an invalid block size", false); x.st = IDLE; return;
+          expect_abort(f, r, {}, before, after, "acknowledge with an invalid block size", false); abort_names_open(f, r, x.obj, "acknowledge with an invalid block size"); x.st = IDLE; return;
         }
         x.acked += k;
         if (all) {
@@ -210,7 +214,7 @@ struct C04 {
       }
       if ((cmd & 0xE3) == 0xA2 && x.st == BLKUPEND) { x.st = UNTRACKED; return; }   // a second acknowledge after the end frame: statement silent
       // anything else during a block upload: exactly one abort, code free
-      expect_abort(f, r, {}, before, after, "unexpected command during a block upload", false); x.st = IDLE; return;
+      expect_abort(f, r, {}, before, after, "unexpected command during a block upload", false); abort_names_open(f, r, x.obj, "unexpected command during a block upload"); x.st = IDLE; return;
     }
     // ---- dispatch states: IDLE, SEGUP, SEGDN, BLKUPINIT, LOOSE (a segmented transfer may or may not be open)
     bool open = x.st != IDLE;
@@ -316,26 +320,26 @@ struct C04 {
     if (ccs == 0) {   // download segment
       if (x.st == SEGDN) {
         CHECK(c, r.size() == 1, "one-response-per-request", "download segment: %zu responses", r.size());
-        if (((cmd >> 4) & 1) != x.toggle) { expect_abort(f, r, {0x05030000u}, before, after, "download segment with the wrong toggle bit", false); seen(16); x.st = IDLE; return; }
+        if (((cmd >> 4) & 1) != x.toggle) { expect_abort(f, r, {0x05030000u}, before, after, "download segment with the wrong toggle bit", false); abort_names_open(f, r, x.obj, "download segment with the wrong toggle bit"); seen(16); x.st = IDLE; return; }
         if (r[0].d[0] == 0x80) { x.st = IDLE; return; }
         CHECK(c, r[0].d[0] == (0x20 | (x.toggle << 4)), "dl-toggle", "download segment (toggle %u) answered with %s", x.toggle, r[0].str().c_str());
         x.toggle ^= 1; if (cmd & 1) x.st = IDLE;
         return;
       }
       if (x.st == LOOSE) { CHECK(c, r.size() == 1, "one-response-per-request", "download segment: %zu responses", r.size()); x.st = r[0].d[0] == 0x80 ? IDLE : UNTRACKED; return; }
-      expect_abort(f, r, {}, before, after, "download segment without an open segmented download", false); seen(17); x.st = x.st == IDLE ? IDLE : LOOSE; return;
+      expect_abort(f, r, {}, before, after, "download segment without an open segmented download", false); if (x.st == BLKUPINIT || x.st == SEGUP || x.st == SEGDN) abort_names_open(f, r, x.obj, "download segment without an open segmented download while another transfer is open"); seen(17); x.st = x.st == IDLE ? IDLE : LOOSE; return;
     }
     if (ccs == 3 && (cmd & 0x0F) == 0) {   // upload segment request 60h / 70h
       if (x.st == SEGUP) {
         CHECK(c, r.size() == 1, "one-response-per-request", "upload segment request: %zu responses", r.size());
-        if (((cmd >> 4) & 1) != x.toggle) { expect_abort(f, r, {0x05030000u}, before, after, "upload segment request with the wrong toggle bit", false); seen(16); x.st = IDLE; return; }
+        if (((cmd >> 4) & 1) != x.toggle) { expect_abort(f, r, {0x05030000u}, before, after, "upload segment request with the wrong toggle bit", false); abort_names_open(f, r, x.obj, "upload segment request with the wrong toggle bit"); seen(16); x.st = IDLE; return; }
         if (r[0].d[0] == 0x80) { x.st = IDLE; return; }
         CHECK(c, (r[0].d[0] & 0xF0) == (x.toggle << 4), "ul-toggle", "upload segment request (toggle %u) answered with %s", x.toggle, r[0].str().c_str());
         x.toggle ^= 1; if (r[0].d[0] & 1) x.st = IDLE;
         return;
       }
       if (x.st == LOOSE) { CHECK(c, r.size() == 1, "one-response-per-request", "upload segment request: %zu responses", r.size()); x.st = r[0].d[0] == 0x80 ? IDLE : UNTRACKED; return; }
-      expect_abort(f, r, {}, before, after, "upload segment request without an open segmented upload", false); seen(17); x.st = x.st == IDLE ? IDLE : LOOSE; return;
+      expect_abort(f, r, {}, before, after, "upload segment request without an open segmented upload", false); if (x.st == BLKUPINIT || x.st == SEGUP || x.st == SEGDN) abort_names_open(f, r, x.obj, "upload segment request without an open segmented upload while another transfer is open"); seen(17); x.st = x.st == IDLE ? IDLE : LOOSE; return;
     }
     if (cmd == 0xA3) {
       if (x.st == BLKUPINIT) {
@@ -348,10 +352,10 @@ struct C04 {
       expect_abort(f, r, {}, before, after, "block upload start (A3h) without a block upload initiate", false); seen(17); x.st = x.st == IDLE ? IDLE : LOOSE; return;
     }
     if (cmd == 0xA1 || (cmd & 0xE3) == 0xA2 || (cmd & 0xE3) == 0xC1) {   // block continuation commands outside a block transfer
-      expect_abort(f, r, {}, before, after, "block continuation command without a block transfer", false); seen(17); x.st = x.st == IDLE ? IDLE : LOOSE; return;
+      expect_abort(f, r, {}, before, after, "block continuation command without a block transfer", false); if (x.st == BLKUPINIT || x.st == SEGUP || x.st == SEGDN) abort_names_open(f, r, x.obj, "block continuation command without a block transfer while another transfer is open"); seen(17); x.st = x.st == IDLE ? IDLE : LOOSE; return;
     }
     if (ccs == 7) {
-      expect_abort(f, r, {0x05040001u}, before, after, "unknown command specifier", false); seen(18); x.st = x.st == IDLE ? IDLE : LOOSE; return;
+      expect_abort(f, r, {0x05040001u}, before, after, "unknown command specifier", false); if (x.st == BLKUPINIT || x.st == SEGUP || x.st == SEGDN) abort_names_open(f, r, x.obj, "unknown command specifier while another transfer is open"); seen(18); x.st = x.st == IDLE ? IDLE : LOOSE; return;
     }
     // command bytes with reserved bits set: answered like the initiate they resemble, or refused - only the count is asserted
     CHECK(c, r.size() == 1, "one-response-per-request", "request %s: %zu responses, exactly one expected", f.str().c_str(), r.size());
